@@ -288,7 +288,7 @@ def check_c19(tier, seed):
         uris = [rand_uri(rng) for _ in range(rng.randrange(1, 9))]
         if rng.random() < 0.5:
             uris += [rng.choice(uris) for _ in range(rng.randrange(1, 4))]
-        delims = rng.choice([None, None, ["/"], ["_", "/"], ["#", "/", "_", "-"], ["://"], ["/", "#"], ["::", "/"], ["--", "::", "_"]])
+        delims = rng.choice([None, None, ["/"], ["_", "/"], ["#", "/", "_", "-"], ["://"], ["/", "#"], ["::", "/"], ["--", "::", "_"], ["/", "a"], ["id=", "="]])
         cutoff = rng.choice([None, None, 0, 1, 2, 3])
         meta = rng.choice([None, "ns", "n1", "p.", "é"])
         pre = rng.choice([None, None, [{"p": "obo", "u": "http://purl.obolibrary.org/obo/", "ps": [], "us": ["https://e.org/"], "pat": None}]])
